@@ -46,9 +46,9 @@ def default_classify(rep, rec, e, table, compat):
 
 
 def gen_replay(rep, name, alphabet, table, maxlen, compat=False, fastjit=True, classify=default_classify,
-               sample_filter=None):
+               sample_filter=None, deep=False):
     """GEN -> REPLAY for one configuration."""
-    results, vectors = de.run_decoder_tlc(name, alphabet, table, maxlen, compat=compat, emit=True, fastjit=fastjit)
+    results, vectors = de.run_decoder_tlc(name, alphabet, table, maxlen, compat=compat, emit=True, fastjit=fastjit, deep=deep)
     for r in results:
         if r.violated:
             raise MachineryError("unexpected invariant violation in generation config %s: %s" % (name, r.errors[:1]))
@@ -115,6 +115,7 @@ def check_C02(tier):
         alpha = sorted(rng.sample(DEC_POOL, 11)) + ["."]
         tab = rng.choice(["default", "octet_rule", "hypervalent", "tight", "wide"])
         gen_replay(rep, "pool%d_%s" % (k, tab), alpha, TABLES[tab], 4, fastjit=quick)
+    narrow_deep(rep, quick, rng)
     coverage_run(rep, DEC["frag"] + ["[epsilon]", "[Foo]"], "default", 3)
     trace_random(rep, "C02", quick)
     rep.exhaustive = True
@@ -122,6 +123,22 @@ def check_C02(tier):
                         "look-alikes of [epsilon] (symbols containing 'eps') are in the permissive region: "
                         "treated as epsilon or rejected"]
     return rep.finish()
+
+
+NARROW = [["[C]", "[Branch1]", "[Ring1]", "[=Ring1]"], ["[C]", "[=Branch1]", "[Ring1]", "[#C]"], ["[N]", "[Branch1]", "[=Ring1]", "[=C]"],
+          ["[C]", "[Ring1]", "[Ring2]", "."], ["[S]", "[#Branch1]", "[Ring1]", "[=N]"], ["[C]", "[Branch2]", "[Ring1]", "[=Ring2]"],
+          ["[P]", "[Branch1]", "[#Ring1]", "[C]"], ["[C]", "[Branch1]", "[-/Ring1]", "[\\/Ring1]"]]
+
+
+def narrow_deep(rep, quick, rng, table="default"):
+    """Few symbols, long strings: interplay of several rings and branches on the same atoms needs 8-10 symbols
+    (a ring from inside a branch back to the branch root, then the root's own ring; rings on rings; budgets that
+    run out inside an index).  Every string over a 4-symbol alphabet up to 9 symbols, exhaustively."""
+    alphas = [NARROW[0], NARROW[1 + seed() % (len(NARROW) - 1)]] if quick else NARROW
+    for i, alpha in enumerate(alphas):
+        gen_replay(rep, "narrow%d_%s" % (i, tabname(table)), alpha, table, 9 if quick else 10, fastjit=quick, deep=True)
+    if not quick:
+        gen_replay(rep, "narrow5_default", ["[C]", "[Branch1]", "[Ring1]", "[=Ring1]", "[Ring2]"], table, 9, fastjit=False, deep=True)
 
 
 def trace_random(rep, pid, quick, tables=("default", "wide", "tight")):
@@ -708,6 +725,7 @@ def check_C07(tier):
                 rep.violation("string over the robust alphabet of table %s is rejected (%s): %r" % (
                     tname, rec["kind"], "".join(rec["inp"])[:200]), {"tokens": rec["inp"], "table": tab})
         trace_validate(rep, "C07_%s" % tname, recs, tab)
+    narrow_deep(rep, quick, random.Random(seed() + 77))
     rep.exhaustive = True
     return rep.finish()
 
